@@ -5,7 +5,7 @@
 set -u
 export GOFLAGS=-mod=mod GOPROXY=off GOSUMDB=off GOTOOLCHAIN=local
 export PATH=/opt/veriftools/go1.26.8/bin:$PATH
-V=/verif
+V=$(cd "$(dirname "$0")/.." && pwd)
 REPO=${VERIF_REPO:-/repo}
 OUT=$1
 MUT=${2:-}
@@ -22,8 +22,9 @@ trap 'rm -rf "$SCR"' EXIT
 margs=()
 [ -n "$MUT" ] && margs=(-mutate "$MUT")
 "$INSTR" -repo "$REPO" -out "$SCR" -directives $V/instr/directives.json -extra $V/extra "${margs[@]}" >"$SCR/instr.log" 2>&1 || { cat "$SCR/instr.log" >&2; echo "INFRA: instrumentation failed" >&2; exit 2; }
-# 3. cache key: instrumented sources + harness + runtime + repo go.mod/go.sum
-key=$( (cd "$SCR/src" && find . -type f | sort | xargs sha256sum; cat $REPO/go.mod $REPO/go.sum; cd $V && find harness simrt extra -type f \( -name '*.go' -o -name '*.s' -o -name go.mod \) | sort | xargs sha256sum) | sha256sum | cut -c1-20)
+# 3. cache key: instrumented sources + every .go file of the repo tree (packages that are not
+#    instrumented are compiled straight from /repo) + harness + runtime + repo go.mod/go.sum
+key=$( (cd "$SCR/src" && find . -type f | sort | xargs sha256sum; cat $REPO/go.mod $REPO/go.sum; (cd $REPO && find . -name '*.go' -not -path './.git/*' -type f | sort | xargs sha256sum); cd $V && find harness simrt extra -type f \( -name '*.go' -o -name '*.s' -o -name go.mod \) | sort | xargs sha256sum) | sha256sum | cut -c1-20)
 BIN=$V/.cache/harness-$key.test
 if [ ! -x "$BIN" ]; then
   # the overlay must point at stable paths for the compile; keep sources next to the binary
@@ -34,8 +35,8 @@ if [ ! -x "$BIN" ]; then
   (cd $V/harness && go test -c -vet=off -overlay="$SRC/overlay.json" -o "$BIN.tmp" . ) >"$SCR/build.log" 2>&1 || { cat "$SCR/build.log" >&2; rm -rf "$SRC"; echo "INFRA: harness build failed" >&2; exit 2; }
   mv "$BIN.tmp" "$BIN"
   rm -rf "$SRC"
-  # keep the cache small: newest 6 binaries
-  ls -t $V/.cache/harness-*.test 2>/dev/null | tail -n +7 | xargs -r rm -f
+  # keep the cache small: newest 12 binaries
+  ls -t $V/.cache/harness-*.test 2>/dev/null | tail -n +13 | xargs -r rm -f
 fi
 ln -sf "$BIN" "$OUT" 2>/dev/null || cp "$BIN" "$OUT"
 grep -h '^instr:' "$SCR/instr.log" >&2
